@@ -10,7 +10,8 @@ PROPS = ('GambitV.Props.C14', 'GambitV.C14')
 TIE = []
 RULE = ('(command, how each side is supplied, explicit -k/-p or not, parameters of each pre-computed side). gambit dist over the 3 x 5 ways of supplying '
         'queries x references with parameter sets differing in k, in prefix, in both, or equal; gambit query -s SIGFILE against databases with equal / '
-        'different parameters; gambit signatures create with -k/-p, --db-params, both, neither; invalid -k/-p combinations. Observed: exit status, whether '
+        'different parameters (incl. prefixes > 16 nt sharing their first 16 nt, and the library default given explicitly); several signature calculations in one '
+        'process with parameter sets sharing k or the prefix (sequential, shared executor, sequential then process pool), each result judged by the Lean signature model; gambit signatures create with -k/-p, --db-params, both, neither; invalid -k/-p combinations. Observed: exit status, whether '
         'the output file exists, and which candidate parameter set reproduces the written output through the real library. Judged by the Lean decision '
         'table (GambitV.distDecision etc.). Non-trivial = distinct case in which two pre-computed sources, or explicit options and a source, meet.')
 TRUSTED = ['harness/props/c14.py, harness/cliutil.py + Driver/C14.lean', 'click option parsing']
@@ -235,6 +236,36 @@ def check(ctx, case):
 		case['_nt'] = bool(case.get('db_params')) or ek is not None
 		return [f'c14.create {"~" if ek is None else ek} {ep_tok} {b01(case.get("db_params"))} {spec_tok(dbs)} {spec_tok(DEFAULT)} {b01(code != 0)} {b01(wrote)} '
 		        f'{";".join(spec_tok(m) for m in matching) if matching else "_"}'], []
+	if cmd == 'seqcalc':
+		# several signature calculations in ONE process with parameter sets that share k (or share the prefix): every result must be
+		# the signature for the parameter set asked for (judged by the Lean signature model), whatever ran before on that worker
+		from concurrent.futures import ThreadPoolExecutor
+		from gambit.sigs.calc import calc_file_signatures
+		from gambit.seq import SequenceFile
+		from Bio import SeqIO
+		files = w.qfiles + w.rfiles
+		contigs = [[bytes(r.seq) for r in SeqIO.parse(str(p), 'fasta')] for p in files]
+		lines, pf = [], []
+		pool = ThreadPoolExecutor(max_workers=1) if case['mode'] == 'shared-executor' else None
+		try:
+			for sp in case['specs']:
+				ks = w.kspec(tuple(sp))
+				sfs = SequenceFile.from_paths(files, 'fasta', 'auto')
+				if case['mode'] == 'shared-executor':
+					res = calc_file_signatures(ks, sfs, executor=pool)
+				elif case['mode'] == 'sequential-then-pool' and sp is case['specs'][-1]:
+					res = calc_file_signatures(ks, sfs, concurrency='processes', max_workers=2)
+				else:
+					res = calc_file_signatures(ks, sfs, concurrency=None)
+				if res.kmerspec != ks:
+					pf.append(f'result labelled {res.kmerspec} for request {ks}')
+				for cs, sig in zip(contigs, res):
+					lines.append(f'c01.sig {sp[0]} {hx(sp[1].encode())} {";".join(hx(c) for c in cs)} {sig.dtype.itemsize} {",".join(map(str, sig.tolist())) if len(sig) else "-"}')
+		finally:
+			if pool is not None:
+				pool.shutdown()
+		case['_nt'] = len({tuple(x) for x in case['specs']}) > 1
+		return lines, pf
 	raise ValueError(cmd)
 
 
@@ -249,6 +280,24 @@ def run(ctx):
 
 	try:
 		specs = [(6, 'AT'), (7, 'AT'), (6, 'AC'), (7, 'AC')]
+		# one process, several calculations: same k / other prefix, same prefix / other k, back and forth
+		for mode in ('sequential', 'shared-executor', 'sequential-then-pool'):
+			for j in range(ctx.q(2, 8)):
+				seqs = [list(rng.choice(specs + [(5, 'ATG'), (6, 'ATG')])) for _ in range(rng.randint(2, 4))]
+				if j == 0:
+					seqs = [[6, 'AT'], [6, 'AC'], [7, 'AC'], [6, 'AT']]
+				sub({'cmd': 'seqcalc', 'mode': mode, 'specs': seqs}, f'seqcalc-{mode}')
+		# prefixes longer than 16 nt that share their first 16 nt, and the 16-nt stem itself; and the library default given explicitly
+		LONG = [(6, 'ATGACGTTAGCCATGGA'), (6, 'ATGACGTTAGCCATGGC'), (6, 'ATGACGTTAGCCATGG')]
+		for a in LONG:
+			for b in LONG:
+				for r in ('sigs', 'db'):
+					for e in ((None, None), LONG[2], a):
+						sub({'cmd': 'dist', 'q': 'sigs', 'r': r, 'qspec': list(a), 'rspec': list(b), 'ek': e[0], 'ep': e[1]}, 'dist-long-prefix')
+				sub({'cmd': 'querysig', 'qspec': list(a), 'dbspec': list(b)}, 'query-sigfile-long-prefix')
+		for q, r in (('sigs', 'sigs'), ('sigs', 'db'), ('sigs', 'square'), ('files', 'sigs'), ('files', 'db'), ('sigs', 'files')):
+			for sp in (specs[0], DEFAULT):
+				sub({'cmd': 'dist', 'q': q, 'r': r, 'qspec': list(sp), 'rspec': list(sp), 'ek': DEFAULT[0], 'ep': DEFAULT[1]}, 'dist-explicit-default')
 		# query -s: every (sigfile params, db params) pair
 		for qs in specs:
 			for dbs in specs[:3]:
